@@ -112,15 +112,16 @@ FILES = {'good.css': b'a{color:red}\nb{left:0}', 'bad.css': b'\xff\xff a{}'}
 URLS = {'imp.css': 'i{top:0}', 'good.css': b'u{color:blue}'}
 
 # standalone media queries: (text, ok, number of tokens left over on the pinned tree)
+# (since the C17 repairs a stand-alone query with trailing text is rejected instead of accepted truncated)
 QUERIES = [
     ('screen', 1, 0),
-    ('screen, print', 1, 1),
-    ('screen garbage', 1, 1),
-    ('screen and (min-width:1px), tv', 1, 1),
+    ('screen, print', 0, 1),
+    ('screen garbage', 0, 1),
+    ('screen and (min-width:1px), tv', 0, 1),
     ('print and (min-width:1px)', 1, 0),
     ('(bad', 0, 0),
     ('bogus', 0, 0),
-    ('not tv and (color) , ,', 1, 1),
+    ('not tv and (color) , ,', 0, 1),
 ]
 # constructions that run a production parser: (kind, text, ok, tokens pushed back)
 CONSTRUCTS = [
